@@ -19,6 +19,8 @@ import NngModel.Driver.Common
 import NngModel.Model.Hostile
 import NngModel.Spec.Hostile
 import NngModel.Spec.Backtrace
+import NngModel.Generated.Base
+import NngModel.Generated.C01
 namespace Nng.Driver.Hostile
 open Nng Nng.Sp Nng.Hostile Nng.Driver
 
